@@ -641,7 +641,7 @@ def select__index_of(self: XPathFunction, context: ta.ContextType = None) -> Ite
 
     with CollationManager(collation, self) as manager:
         for pos, result in enumerate(self[0].atomization(context), start=1):
-            if manager.eq(result, value):
+            if isinstance(result, bool) is isinstance(value, bool) and manager.eq(result, value):
                 yield pos
 
 
